@@ -103,7 +103,7 @@ func vLegalKey(n int) string {
 	vAssume(len(k) > 0)
 	for i := 0; i < len(k); i++ {
 		c := k[i]
-		vAssume(c > 0x20 && c < 0x7f && c != '=' && c != '"' && c != '\\' && c != '.')
+		vAssume(c > 0x20 && c < 0x7f && c != '=' && c != '"' && c != '.') // (a backslash is a legal key byte: keys are written literally)
 	}
 	vAssume(k != "time" && k != "logger" && k != "level" && k != "msg")
 	return k
